@@ -311,7 +311,26 @@ class NegotiationStream(Stream):
             out.append(o)
         return out
 
+    def ladder_cases(self):
+        """specificity ladders at one and the same q against every order of offers that are each
+        matched by a different rung: ties must go to the more specific range, then to offer order
+        (needs >= 3 offers of equal quality arriving low, high, mid - seeded change C17-1)"""
+        ladders = {
+            "mime": ([("*/*", []), ("text/*", []), ("text/html", []), ("text/html", ["level=1"])], ["image/png", "text/plain", "text/html", "text/html;level=1"]),
+            "lang": ([("*", []), ("en", []), ("de-AT", [])], ["fr", "en", "de-AT", "en"]),
+            "accept": ([("*", []), ("gzip", []), ("br", [])], ["identity", "gzip", "br"]),
+            "charset": ([("*", []), ("utf-8", []), ("latin1", [])], ["ascii", "utf8", "iso-8859-1"]),
+        }
+        for cls, (rungs, offers) in ladders.items():
+            for q in (None, "0.5"):
+                for rs in (rungs, rungs[::-1]):
+                    for k in (3, len(offers)):
+                        for sub in itertools.combinations(offers, k):
+                            for perm in itertools.permutations(sub):
+                                yield self.S(cls, [(r, p, q) for r, p in rs], list(perm))
+
     def cases(self, rng, tier):
+        yield from self.ladder_cases()
         if tier == "thorough":
             yield from self.exhaustive_cases(rng)
         while True:
@@ -336,8 +355,9 @@ class NegotiationStream(Stream):
                 yield {"cls": cls, "header": "".join(rng.choice(RAW_TOK[cls]) for _ in range(n)), "offers": self.rand_offers(rng, cls, True)}
 
     def exhaustive_cases(self, rng):
-        """every ordered selection of <= 3 items (4 for the smallest pools) from a small pool of
-        range x q atoms, against fixed offer lists"""
+        """every ordered selection (with repetition) of <= 3 items from a small pool of range x q
+        atoms against fixed offer lists (both offer orders at random), then every order of 40
+        random 4-item selections per class"""
         pools = {
             "mime": ([("text/html", []), ("text/*", []), ("*/*", []), ("text/html", ["level=1"]), ("text/plain", [])], ["text/html", "text/html;level=1", "text/plain", "image/png"]),
             "lang": ([("en", []), ("en-US", []), ("*", []), ("de", []), ("EN_us", [])], ["en-GB", "en_US", "de-AT", "en"]),
@@ -349,8 +369,6 @@ class NegotiationStream(Stream):
             atoms = [(r, p, q) for r, p in rs for q in qs]
             for n in (1, 2, 3):
                 for sel in itertools.product(atoms, repeat=n):
-                    if n == 3 and rng.random() < 0.5:
-                        continue
                     yield self.S(cls, sel, offers if rng.random() < 0.5 else offers[::-1], rng.randrange(48))
         # all orders of 4 items
         for cls, (rs, offers) in pools.items():
@@ -521,6 +539,8 @@ CHECK = Check(
         "codecs.lookup(name).name is an opaque parameter of the model (alias table computed by the harness with the same library call)",
         "urllib.request.parse_http_list, parse_options_header (without RFC 2231 key*= values), dump_options_header and the two regex splits are hand-modelled and validated by the stream",
         "sorted(a) == sorted(b) on parameter lists is modelled as multiset equality (List.isPerm)",
+        "known finding F17b: an element whose q parameter is not a token (`;q=`, `;q= 0.5`, `;q =0.5`) keeps q=1 instead of being ignored; invalid_q_ignored is proved for token q texts (header level) and for q parameters that survive parse_options_header, the full-strength negation is proved",
+        "known finding F17c: the fallback stages of LanguageAccept.best_match can return an offer whose exact quality is 0; the q=0 clause is proved for the exact stage and for the other three classes, the full-strength negation is proved",
     ],
     trusted_extra=["CPython re / str / float / sorted semantics for the modelled primitives (validated by the stream, not verified)"],
     quick_budget=4000,
@@ -529,7 +549,7 @@ CHECK = Check(
 
 MANIFEST = {
     "level_text": "Machine-checked Lean 4 theorems about an executable model of parse_accept_header and the four Accept classes: the generic theorems (stable sort, first match = most specific, optimality and tie-breaking of best_match, none iff no positive offer) hold for every match relation and every total preorder of qualities and specificities and are instantiated for Accept, MIMEAccept, LanguageAccept (all three stages) and CharsetAccept; the model is tied to the code by a differential stream over the property's grammar and the property oracle (independent brute-force reference) runs on the real code.",
-    "level_note": "Trusted: Lean kernel; the correspondence harness; CPython re/str/float/sorted for modelled primitives; codecs.lookup is an opaque parameter; q literals are exact decimals in the model (float() assumed exact below 14 characters).",
+    "level_note": "Trusted: Lean kernel; the correspondence harness; CPython re/str/float/sorted for modelled primitives; codecs.lookup is an opaque parameter; q literals are exact decimals in the model (float() assumed exact below 14 characters). Known findings F17b (unparsable q parameter keeps q=1) and F17c (language fallbacks re-admit q=0 offers).",
     "technique": "Lean 4 proof (induction over item / offer lists, generic in order and match relation) + model/code correspondence",
     "design_ref": "DESIGN.md section 4, C17",
 }
